@@ -32,7 +32,7 @@ Readings of ambiguous English (weaker reading taken, see README "Findings policy
   * "supported" (= wf): SSA names per scope, inputs resolvable, outputs produced, value_info does not name
     graph inputs/outputs, unique keys in every map-like repeated field, nested types have element types,
     attribute value stored in the field of its declared type, STRINGS attributes are UTF-8, external
-    entries are location/offset/length with canonical integers, IR version 3..13, device configurations
+    entries have unique keys, a location and canonical integers for offset/length (any other key is allowed), IR version 3..13, device configurations
     only at IR >= 11, function value_info only at IR >= 10, no sparse tensors/initializers, no map/opaque
     types, no training_info, no TensorProto.segment.
 
@@ -55,7 +55,6 @@ Theorems (coq/theories/C02/Property.v, all "Closed under the global context"; ck
   C02_node_scoping, C02_attrs_all_kinds, C02_attrs_flat   nodes / attributes relative to the nested graphs (the
                             hypothesis is discharged inside the graph stage by induction on the nesting depth)
   C02_value_info, C02_tensor_fields, C02_types_nested, C02_dims_denotations, C02_metadata_every_carrier
-  C02_external_checksum_refuted  the model reproduces the recorded finding (witness by computation)
   Proof files: Proofs1-3 (stages up to nodes), ProofsG1-G14 (graph: total step functions, name tables T0..T3 after
   each phase of _deserialize_graph, final value of every declared name, serializer output as an explicit proto,
   value-info part, quantization part, induction on depth), ProofsG15-G17 (function), ProofsG18 (model),
@@ -81,8 +80,11 @@ Findings on the tree as first read (all reproduced on the real code; witnesses i
   fixed 952a3c2  quantization-annotation-duplicated   (my proposed_fixes/C02-quantization-annotation-duplicated.diff)
   fixed 86f4e6a  ref-graph-attr-crash                 (proposed_fixes/C02-ref-graph-attr-traversal.diff; committed variant)
   fixed 66aa20a  tensorproto-metadata-duplicated      (orchestrator, before this module existed)
-  known          external-data-checksum-dropped       (proposed_fixes/C02-external-data-extra-entries.diff: keep the
-                 uninterpreted entries in tensor.meta and write them back; not applied)
+  fixed fb2515e  external-data-checksum-dropped       (my proposed_fixes/C02-external-data-extra-entries.diff: the
+                 entries the IR does not interpret are kept in tensor.meta and written back).  Model: IExt carries
+                 the extra entries, wf_tensor only asks for unique keys + a location + canonical offset/length,
+                 ProofsSort/ProofsExt prove the general case (ksort is invariant under permutations of a list with
+                 unique keys); the unsupported tensor stream has duplicated keys, leading zeros, no location.
   The model describes the fixed code; the witnesses are ordinary supported corpus cases now.
   The IR < 10 experimental function value-info lookup (names "domain::function/value" in the main graph) is now
   modelled (parse_exp / apply_exp_fn, gated on the regenerated FUNCTION_VALUE_INFO_SUPPORTED_VERSION) instead of
@@ -676,7 +678,13 @@ class Gen:
                 ents.append(("offset", str(self.r.choice([0, 1, 4096, 2**33]))))
             if self.chance(0.7):
                 ents.append(("length", str(self.r.choice([0, 4, 128, 10**12]))))
-            self.r.shuffle(ents)
+            # entries the IR does not interpret are kept (fb2515e): spec keys checksum/basepath, unknown keys
+            for kk, vv in (("checksum", "da39a3ee5e6b4b0d3255bfef95601890afd80709"), ("basepath", "weights/dir"),
+                           ("x-vendor", "1"), ("Location", "upper-case key"), ("", "empty key")):
+                if self.chance(0.3):
+                    ents.append((kk, vv))
+                    self.h("tensor:external-extra-entry")
+            self.r.shuffle(ents)                       # any order, interpreted and other keys interleaved
             for kk, vv in ents:
                 t.external_data.add(key=kk, value=vv)
             self.h("tensor:external")
@@ -1596,6 +1604,23 @@ def gen_cases(ck, n_models: int) -> dict[str, list[dict]]:
                 c["mutation"] = "function:" + bad
                 by_kind["function"].append(c)
                 ck.hist("unsupported_stream", "function:" + bad)
+        if i % 8 == 5:
+            # unsupported external tensors: duplicated keys (last location/offset/length wins, other duplicates are
+            # kept in order), non-canonical integers
+            t = onnx.TensorProto(name="ext_bad", data_type=1, dims=[2], data_location=1)
+            bad = g.r.choice(["dup-location", "dup-extra", "dup-offset", "leading-zero", "no-location"])
+            ents = {"dup-location": [("location", "a"), ("checksum", "c"), ("location", "b")],
+                    "dup-extra": [("checksum", "c1"), ("location", "a"), ("checksum", "c2"), ("k", "1"), ("checksum", "c1")],
+                    "dup-offset": [("offset", "4"), ("location", "a"), ("offset", "8")],
+                    "leading-zero": [("location", "a"), ("offset", "007"), ("length", "0010")],
+                    "no-location": [("offset", "1"), ("basepath", "p")]}[bad]
+            for kk, vv in ents:
+                t.external_data.add(key=kk, value=vv)
+            c = make_case("tensor", t, False)
+            if c:
+                c["mutation"] = "tensor:" + bad
+                by_kind["tensor"].append(c)
+                ck.hist("unsupported_stream", "tensor:" + bad)
         if i % 2 == 0:
             # a standalone AttributeProto (from_proto / to_proto on an attribute): all kinds, references, subgraphs
             a = onnx.AttributeProto()
